@@ -214,7 +214,7 @@ static void on_signal(int sig)
 
 static OPDEF* find_op(const char* name)
 {
-  OPDEF* tabs[] = { ops_basic, ops_graph, ops_sepa, ops_tree };
+  OPDEF* tabs[] = { ops_basic, ops_graph, ops_sepa, ops_tree, ops_rel };
   for (size_t k = 0; k < sizeof(tabs) / sizeof(tabs[0]); ++k)
     for (OPDEF* d = tabs[k]; d && d->name; ++d)
       if (strcmp(d->name, name) == 0) return d;
